@@ -321,7 +321,7 @@ func thinExp(l []*big.Int, rk *refKey) (out []*big.Int) {
 // the returned nonce must be a unit and reproduce the ciphertext in the reference.
 func (k *keyCtx) encSampledCase(m *big.Int, seed int64) (out []finding) {
 	c := Case{Part: "enc-sampled", Key: k.id, X: m.String()}
-	guard(&out, "enc", c, func() {
+	pan, msg, frame := vkit.Try(func() {
 		drv.Use(drv.NewDRBG("c12|enc-sampled|"+k.id+"|"+m.String(), seed))
 		ct, nonce := k.pkPlain.Enc(intOf(m))
 		nb := nonce.Big()
@@ -340,5 +340,12 @@ func (k *keyCtx) encSampledCase(m *big.Int, seed int64) (out []finding) {
 			out = append(out, finding{"paillier|" + k.class + "|dec-mismatch", fmt.Sprintf("key %s m=%s (sampled nonce): Dec=%v err=%v", k.id, short(m), d, err), c})
 		}
 	})
+	if pan && strings.HasPrefix(msg, refusalMsg) {
+		f := k.refusedInRange("plain", m, msg)
+		f.c = c
+		out = append(out, f)
+	} else if pan {
+		out = append(out, finding{"panic|enc|" + frame, fmt.Sprintf("%+v: panic: %s", c, msg), c})
+	}
 	return
 }
